@@ -489,9 +489,10 @@ func judgeC05Apply(args, real, drv json.RawMessage) *core.Verdict {
 		return core.Disagree("malformed real outcome: " + string(real))
 	}
 	var d struct {
-		Outs []json.RawMessage   `json:"outs"`
-		Flat [][]json.RawMessage `json:"flat"`
-		Walk [][2]string         `json:"walk"`
+		Outs  []json.RawMessage   `json:"outs"`
+		Flat  [][]json.RawMessage `json:"flat"`
+		Walk  [][2]string         `json:"walk"`
+		Stuck [][]*string         `json:"stuck"`
 	}
 	if json.Unmarshal(drv, &d) != nil || len(d.Outs) == 0 {
 		return core.Disagree("malformed driver outcome: " + string(drv))
@@ -514,6 +515,10 @@ func judgeC05Apply(args, real, drv json.RawMessage) *core.Verdict {
 	}
 	// ---- cycle oracle (Props/C05Cycle.lean): `circular` is reported iff some chain runs into a cycle
 	if v := c05CycleVerdict(args, r.Out, d.Flat, d.Walk); v != nil {
+		return v
+	}
+	// ---- stuck oracle (Props/C05Stuck.lean): a chain that cannot be followed is an error, of the class of the broken link
+	if v := c05StuckVerdict(r.Out, d.Stuck); v != nil {
 		return v
 	}
 	if !c05MemberOf(r.Out, d.Outs) {
@@ -718,6 +723,52 @@ func c05CycleVerdict(args, realOut json.RawMessage, flat [][]json.RawMessage, wa
 		if ro.Err != nil && *ro.Err != "circular" {
 			return core.Fail("cycle-misreported:"+*ro.Err, "every service flattens or is cyclic, at least one is cyclic, and ApplyExtends fails with "+*ro.Err+" instead of a circular reference")
 		}
+	}
+	return nil
+}
+
+// c05LocateClasses are the error classes that name a link which cannot be followed (as opposed to a cycle, a failing
+// merge, or the loading of a file going wrong inside yaml / interpolation / canonical form).
+var c05LocateClasses = map[string]bool{"notFound": true, "noFile": true, "notFoundInFile": true, "noServices": true,
+	"fileServicesNotMapping": true, "serviceNotMapping": true, "extendsServiceNotString": true, "extendsFileNotString": true, "resolveErr": true}
+
+// c05StuckVerdict decides `stuck_service_error_class` / `stuck_excludes_flat_and_cycle` on the real outcome: the driver
+// says, per service, with which class its chain gets stuck (`stuckClass`: links only, no merge, no tracker).
+//   - some chain is stuck and the real code accepts the document                → stuck-accepted:<class>
+//   - the real code reports a link that cannot be followed, and no chain is stuck with that class → error-without-cause:<class>
+func c05StuckVerdict(realOut json.RawMessage, stuck [][]*string) *core.Verdict {
+	if len(stuck) == 0 {
+		return nil
+	}
+	classes := map[string]bool{}
+	var first string
+	for _, e := range stuck {
+		if len(e) != 2 || e[0] == nil {
+			return nil
+		}
+		if e[1] != nil {
+			c05Stat("apply/stuck/" + *e[1])
+			if len(classes) == 0 {
+				first = *e[1]
+			}
+			classes[*e[1]] = true
+		} else {
+			c05Stat("apply/stuck/-")
+		}
+	}
+	var ro struct {
+		Ok    json.RawMessage `json:"ok"`
+		Err   *string         `json:"err"`
+		Panic *string         `json:"panic"`
+	}
+	if json.Unmarshal(realOut, &ro) != nil || ro.Panic != nil {
+		return nil
+	}
+	if ro.Ok != nil && len(classes) > 0 {
+		return core.Fail("stuck-accepted:"+first, "the chain of a service cannot be followed ("+first+") and ApplyExtends accepts the document")
+	}
+	if ro.Err != nil && c05LocateClasses[*ro.Err] && !classes[*ro.Err] {
+		return core.Fail("error-without-cause:"+*ro.Err, "ApplyExtends fails with "+*ro.Err+", but no service's chain gets stuck with that class")
 	}
 	return nil
 }
